@@ -26,6 +26,7 @@ func AddTimer(d, period int64, fn func(now int64)) *Timer {
 	if s == nil || s.aborting {
 		return t
 	}
+	Event(OpYield, objClock, true)
 	s.seqTimer++
 	t.seq = s.seqTimer
 	t.when = s.now + d
@@ -36,6 +37,7 @@ func AddTimer(d, period int64, fn func(now int64)) *Timer {
 
 // Stop deactivates the timer; reports whether it was active.
 func (t *Timer) Stop() bool {
+	Event(OpYield, objClock, true)
 	was := t.active
 	t.active = false
 	return was
@@ -48,6 +50,7 @@ func (t *Timer) Reset(d int64) bool {
 	if s == nil || s.aborting {
 		return was
 	}
+	Event(OpYield, objClock, true)
 	t.when = s.now + d
 	if !t.active {
 		t.active = true
